@@ -183,6 +183,10 @@ def run(ctx, rep):
     rep.check(ok3, 'R-C04-3', 'scrub: parity check of every level', pc[0].loc() if pc else f.file, det3, function='state_scrub_process', construct='parity check')
     rep.rule('R-C04-3u', 'scrub: a silent error is recorded only for synced files/stripes (file_is_unsynced=0 / block_is_unsynced=0)', 1)
     rep.check(okuns and len(sil) == 2, 'R-C04-3u', 'scrub: silent error only when synced', f.file, '%d silent-error sites' % len(sil), function='state_scrub_process', construct='silent only when synced')
+    ipc = [c2 for c2 in f.calls('block_has_invalid_parity')]
+    hfc = [c2 for c2 in f.calls('block_has_file')]
+    rep.rule('R-C04-3d', 'scrub: a block with invalid parity marks the stripe unsynced even when it has no file (test precedes the skip)', 1)
+    rep.check(bool(ipc) and bool(hfc) and any(f.dominates(a_, hfc[0]) for a_ in ipc), 'R-C04-3d', 'state_scrub_process: invalid-parity test before the no-file skip', hfc[0].loc() if hfc else f.file, '', function='state_scrub_process', construct='invalid parity before skip')
     # marking
     bad = [c2 for c2 in f.calls('info_set_bad')]
     ref = [c2 for c2 in f.calls('info_make')]
